@@ -100,12 +100,14 @@ def py_spec_step(op, ns):
 
 
 class Gen:
-    def __init__(self, rnd):
+    def __init__(self, rnd, digits=False):
         self.r = rnd
+        self.digits = digits      # names with a leading digit only in their own batch (they deviate at createDataFrame)
 
     def fresh(self, ns, k=1, cats=None):
         used = {key(x) for x in ns}
-        pool = [n for n in ALL_NAMES if key(n) not in used and (cats is None or CATEGORY[n] in cats)]
+        pool = [n for n in ALL_NAMES if key(n) not in used and (cats is None or CATEGORY[n] in cats)
+                and (self.digits or CATEGORY[n] != "digit")]
         out = []
         for n in self.r.sample(pool, min(k, len(pool))):
             if key(n) not in used:
@@ -406,3 +408,27 @@ def parse_result(r):
     groups = body.split(",") if body else []
     return {"td": head[0] == "1", "tc": head[1] == "1", "cfg_ok": head[2] == "1",
             "steps": [{f: g[i] == "1" for i, f in enumerate(FLAGS)} for g in groups if len(g) == len(FLAGS)]}
+
+
+# programs that run first on every run (shapes of the listed findings and of the theorems' domain)
+CORPUS = [
+    {"names": ["AB", "c d", "Xy"], "ops": [("groupAgg", [("str", "AB")], ["N"])]},
+    {"names": ["AB", "c d", "Xy"], "ops": [("select", [("str", "`c d`")])]},
+    {"names": ["AB", "c d", "Xy"], "ops": [("fillna", None)]},
+    {"names": ["AB", "c d", "Xy"], "ops": [("drop", ["xy"])]},
+    {"names": ["AB", "c d", "Xy"], "ops": [("toDF", ["Aa", "Bb", "Cc"])]},
+    {"names": ["AB", "Xy"], "ops": [("join", ["ab", "Other"], ["Ab"])]},
+    {"names": ["AB", "c d"], "ops": [("join", ["C D", "Other"], ["c d"])]},
+    {"names": ["C D", "1a"], "ops": []},
+    {"names": ["AB", "c d", "Xy"], "ops": [("where", "ab"), ("select", [("str", "ab"), ("str", "XY")])]},
+    {"names": ["select", "zz"], "ops": [("orderBy", ["select"])]},
+    {"names": ["straße"], "ops": [("select", [("alias", "sTraße", "ДА")]), ("orderBy", ["ДА"])]},
+    {"names": ["AB", "Xy"], "ops": [("select", [("col", "ab"), ("col", "AB")])]},
+    {"names": ["AB", "Xy"], "ops": [("select", [("col", "`Ab`")])]},
+    {"names": ["AB", "c d", "Xy"], "ops": [("dropna",)]},
+    {"names": ["AB", "c d", "Xy"], "ops": [("dropDuplicates", ["Ab"])]},
+    {"names": ["AB", "c d", "Été"], "ops": [("select", [("col", "`C D`"), ("col", "ab"), ("alias", "éTÉ", "Order")]),
+                                               ("withColumn", "ab", "AB"), ("withColumnRenamed", "ORDER", "My Col"),
+                                               ("where", "`my col`"), ("orderBy", ["AB"]), ("limit",), ("distinct",)]},
+    {"names": ["AB", "Xy"], "ops": [("agg", ["Mx", "c d"])]},
+]
